@@ -643,7 +643,7 @@ class Check(PropertyCheck):
         return self._region(rng, p, frame=rng.choice(BAD_FRAMES))
 
     def generate(self, rng, tier):
-        n = int(os.environ.get("C09_N", 2000 if tier == "quick" else 15000))
+        n = int(os.environ.get("C09_N", 1500 if tier == "quick" else 15000))
         cases = []
         for i in range(n):
             p = rng.randint(1, 12)
